@@ -10,6 +10,14 @@ CLAIMED = {
             "Static decision that the bounded-draw routine is an instance of a rejection-sampling schema proven uniform for every n and every raw word, that the raw word is 4 fully-read CSPRNG bytes, and that nobody else consumes raw words. Holds for all inputs at once because it is a statement about the code's shape; not a machine-checked proof (schema lemma is on paper).",
             "Trusted: go/ssa model, crypto/rand.Read contract, encoding/binary, the paper lemma. Not decided: compiled code, crypto/rand internals.",
             "DESIGN.md section 3 C01"),
+    "C09": ("forbidden-import / who-may-read / error-discipline (dominance) / no-recover / index-provenance rules over SSA and the VTA call graph",
+            "Static decision that crypto/rand is the only randomness reachable, read with a short-read-safe call whose error is inspected, every buffer use on the no-error edge, the error edge failing closed, no recover anywhere, and every non-constant index on generation paths a counter or a bounded draw. Covers all recipes, streams and failure positions because there is exactly one read site and the rule is over its CFG.",
+            "Trusted: crypto/rand.Read/io.ReadFull contract, OS source, go/ssa model, VTA call graph. Not decided: alphabet order non-determinism from map iteration (harmless).",
+            "DESIGN.md section 3 C09"),
+    "C16": ("constant/table extraction from types and the initialiser's SSA, compared with the documented values; list literals vs testdata files",
+            "Exhaustive static comparison of the finite set of documented constants, defaults, preset recipes and embedded list entries with the source; preset behaviour reduces to C01/C02/C06 for the extracted recipe.",
+            "Trusted: go/constant, go/ssa lowering of composite literals. Not decided: output distribution of presets as such.",
+            "DESIGN.md section 3 C16"),
 }
 
 NOT_APPLICABLE = {
